@@ -215,10 +215,10 @@ def simple_check(ctx, mode, rule, require, quick_values, thorough_values, config
         for k, v in t.items():
             tot[k] = tot.get(k, 0) + v
     for xname, xtext in extra_texts:
-        xp = os.path.join(ctx.work, "crafted_%s_%s.tl" % (mode, xname))
+        xp = os.path.join(ctx.work, "crafted_%s_%s" % (mode, xname if xname.endswith(".tl2") else xname + ".tl"))
         with open(xp, "w") as f:
             f.write(xtext)
-        p = build_pkg(ctx, "crafted_%s_%s" % (mode, xname), [xp], "tl2all")
+        p = build_pkg(ctx, "crafted_%s_%s" % (mode, xname.replace(".", "_")), [xp], "tl2all")
         p.schema = "crafted:" + xname
         t, _ = run_mode(ctx, p, mode, env=e, fill_death_is_violation=fill_death_is_violation, mem_gb=mem_gb, oom_is_violation=oom_is_violation)
         for k, v in t.items():
@@ -242,3 +242,29 @@ def simple_check(ctx, mode, rule, require, quick_values, thorough_values, config
     cfgs = configs_thorough if thorough else configs_quick
     ctx.require("generated packages", len(pkgs), len([1 for s in sets for c in cfgs if (s, c) not in UNBUILDABLE]))
     return tot
+
+
+# a TL2-origin schema of shapes the repository's cases.tl2 does not hold: reserved ("_") fields at and around the boundaries of the presence-mask
+# blocks (8 fields per block), optional and bit fields in later blocks, unions whose variants carry reserved fields
+def tl2_shapes():
+    out = []
+    for pos in (0, 6, 7, 8, 15, 16):
+        fs = []
+        for i in range(19):
+            if i == pos:
+                fs.append("_:int32")
+            elif i % 5 == 4:
+                fs.append("f%d:string" % i)
+            elif i % 7 == 3:
+                fs.append("f%d?:int32" % i)
+            elif i % 9 == 5:
+                fs.append("f%d:bit" % i)
+            else:
+                fs.append("f%d:int32" % i)
+        out.append("sh.reserved%d = %s ;" % (pos, " ".join(fs)))
+    out.append("sh.twoReserved = a:int32 _:string c:int32 d:int32 e:int32 f:int32 g:int32 _:int32 i:int32 j?:string k:bit _:[]int32 m:int32 n:int32 o:int32 p:int32 q:string ;")
+    out.append("sh.allOptional = " + " ".join("o%d?:int32" % i for i in range(17)) + " ;")
+    out.append("sh.bits = " + " ".join("b%d:bit" % i for i in range(18)) + " tail:int32 ;")
+    out.append("sh.Un = | plain x:int32 | res a:int32 _:int32 c:string d:int32 e:int32 f:int32 g:int32 _:int32 i:int32 | wide " + " ".join("w%d:int32" % i for i in range(10)) + " | alias int32 ;")
+    out.append("sh.holder = u:sh.Un r:sh.reserved7 v:[]sh.reserved8 m:[string]sh.reserved15 o?:sh.reserved16 t:[2]sh.twoReserved ;")
+    return "\n".join(out) + "\n"
